@@ -52,7 +52,7 @@ const (
 	// go9p's documented default when Srv.Msize is left unset: 1 MiB + IOHDRSZ
 	defMsize = 1048576 + 24
 	iohdr    = 24
-	deadline = 10 * time.Second
+	deadline = 30 * time.Second
 
 	// listed-finding ids (only honoured while /verif/known_findings.json lists them)
 	findOversize = "recycled-reply-buffer-exceeds-msize" // D11
